@@ -115,3 +115,14 @@ Definition run_c01_prune (s : sx) : sx :=
     end
   | _ => bad_request
   end.
+
+(* [model state list, given state list] -> is a virtual evidence with that state order accepted *)
+Definition run_c01_vevok (s : sx) : sx :=
+  match s with
+  | SL [a; b] =>
+    match sx_list sx_nat a, sx_list sx_nat b with
+    | Some ms, Some gs => sx_ok (of_bool (vev_accepted ms gs))
+    | _, _ => bad_request
+    end
+  | _ => bad_request
+  end.
